@@ -208,7 +208,22 @@ def shard_main(args):
 
         def one(case):
             case = norm(case)
-            res = execute(mod, case)
+            try:
+                res = execute(mod, case)
+            except Exception as e:
+                if type(e).__name__ != "HarnessError":
+                    raise
+                # keep the case: a harness error must be reproducible
+                try:
+                    d = os.path.join(ROOT, "out", "harness", mod.ID)
+                    os.makedirs(d, exist_ok=True)
+                    with open(os.path.join(d, f"shard{shard}.json"),
+                              "w") as f:
+                        json.dump({"property": mod.ID, "expect": "pass",
+                                   "case": enc(case)}, f)
+                except Exception:
+                    pass
+                raise
             st.record(case, res)
             if not res["ok"]:
                 fid = match_known(mod, known, case, res)
